@@ -57,6 +57,33 @@ def _write_replay(prop, v, sc_min, digest):
     return path
 
 
+def _sensitivity(prop):
+    """Summary of the committed sensitivity records (NOT measured by this run):
+    the mutant self-test and the seeded changes of independent sub-agents."""
+    out = {"note": "read from committed files selftest_results/mutants.json and seeded/*/meta.json; not measured by this run"}
+    try:
+        mu = json.load(open(os.path.join(VERIF, "selftest_results", "mutants.json")))["results"]
+        mine = [r for r in mu if r.get("property") == prop]
+        out["mutants_killed"] = sorted(r["name"] for r in mine if r.get("status") == "killed")
+        out["mutants_survived"] = sorted(r["name"] for r in mine if r.get("status") == "survived")
+    except Exception:
+        pass
+    try:
+        det, miss = [], []
+        sd = os.path.join(VERIF, "seeded")
+        for d in sorted(os.listdir(sd)):
+            mp = os.path.join(sd, d, "meta.json")
+            if os.path.exists(mp):
+                m = json.load(open(mp))
+                if m.get("property") == prop:
+                    (det if m.get("check", {}).get("detected") else miss).append(d)
+        out["seeded_detected"] = det
+        out["seeded_missed"] = miss
+    except Exception:
+        pass
+    return out
+
+
 def run_check(prop, tier, seed, jobs, scale):
     t0 = _walltime.time()
     print("check %s tier=%s VERIF_SEED=%d jobs=%d repo=%s common=%s" % (prop, tier, seed, jobs, REPO, common_module()))
@@ -184,6 +211,7 @@ def run_check(prop, tier, seed, jobs, scale):
         "known_findings_still_reproducing": n_known_still,
         "jobs": jobs,
     }
+    cov["sensitivity_recorded_earlier"] = _sensitivity(prop)
     ev = {"property_id": prop, "tier": tier, "seed": seed, "level": "exploration", "coverage": cov,
           "assumptions": ASSUME[prop], "wall_s": round(wall, 2), "violations": new_violations}
     os.makedirs(EVIDENCE_DIR, exist_ok=True)
